@@ -34,12 +34,21 @@ func main() {
 	}
 	r.SetDeadline(dl)
 	deadlineAt = time.Now().Add(dl)
-	f, err := buildFixture(baseHeadB+uint64(depth)+2, 2, 3, 4, 5, 10)
+	// the expiry-order worlds stand at the heights where the printed width of a height grows; the 262
+	// blocks go through the real executor in well under a second
+	boundaries := widthBoundaries
+	fxHead := baseHeadB + uint64(depth) + 2
+	if h := boundaries[len(boundaries)-1] + wBlocks + 2; h > fxHead {
+		fxHead = h
+	}
+	tf := time.Now()
+	f, err := buildFixture(fxHead, 2, 3, 4, 5, 10, 16, 256)
 	if err != nil {
 		fmt.Println("MACHINERY-ERROR: cannot build the fixture chain:", err)
 		os.Exit(2)
 	}
 	fx = f
+	fmt.Printf("fixture chain of %d blocks built in %.2fs\n", fxHead, time.Since(tf).Seconds())
 
 	if r.ReplayPath != "" {
 		var probe struct {
@@ -55,6 +64,10 @@ func main() {
 			var c ACase
 			r.LoadReplay(&c)
 			bad = replayA(c)
+		case "w":
+			var c WCase
+			r.LoadReplay(&c)
+			bad = replayW(c)
 		case "v":
 			var c VCase
 			r.LoadReplay(&c)
@@ -92,6 +105,7 @@ func main() {
 	if only == "" || only == "a" {
 		runPartA()
 		runSetChangeWorlds()
+		runExpiryOrderWorlds(boundaries)
 		fmt.Printf("part (a) done in %.1fs\n", time.Since(t0).Seconds())
 	}
 	t1 := time.Now()
